@@ -363,7 +363,8 @@ def _marginal_and_inverse(ctx, case, got, xt, big_x, tol, name):
 
 
 # 'all dt': the repo's rates, the usual band, any positive magnitude, and integer steps
-_DTS = st.one_of(gen.dts(1e-4, 10.0), gen.dts(1e-4, 10.0), gen.log_uniform(1e-9, 1e-4), gen.log_uniform(10.0, 1e6), st.integers(1, 3000))
+_DTS = st.one_of(gen.dts(1e-4, 10.0), gen.dts(1e-4, 10.0), gen.log_uniform(1e-9, 1e-4), gen.log_uniform(10.0, 1e6), st.integers(1, 3000),
+                  st.integers(1, 50))
 
 
 @st.composite
@@ -385,8 +386,8 @@ def _dom_cases(draw):
         oracle="reference model (closed form from the statement): get_max_stockwell_freq(AccSignal|Signal) and "
                "get_max_tifq_vals_freq(transform(x) | |transform(x)|, dt) have n (or len(x)) entries and equal k0/(n dt) on samples "
                "ceil(n/4)..floor(3n/4), relative 1e-12",
-        require={"odd": 0.3, "even": 0.3, "k0=2": 0.05, "k0=kmax": 0.05, "k0>n/4": 0.1, "pow2": 0.05, "dt-int": 0.1,
-                 "dt>10": 0.05, "dt<1e-4": 0.04, "reads=2": 0.2},
+        require={"odd": 0.3, "even": 0.3, "k0=2": 0.05, "k0=kmax": 0.05, "k0>n/4": 0.1, "pow2": 0.05, "dt-int": 0.06,
+                 "dt>10": 0.04, "dt<1e-4": 0.03, "reads=2": 0.15},
         min_nontrivial=0.5)
 def dominant_frequency(case, ctx):
     length = int(case["len"])
